@@ -271,7 +271,7 @@ def swapped(P, a, b, j):
 @register
 class Transpose(_Overwritable):
     name, func = 'TT.transpose', 'transpose'
-    props = ('C01', 'C06')
+    props = ('C01', 'C06', 'C20')
     loop_ordinals = {0: 'i in range(self.order)'}
 
     def instances(self):
@@ -644,7 +644,7 @@ class Element(Contract):
 @register
 class MatMul(Contract):
     name, func = 'TT.__matmul__', '__matmul__'
-    props = ('C01', 'C06')
+    props = ('C01', 'C06', 'C20')
 
     def instances(self):
         return [{'other': 'TT'}, {'other': 'not-TT'}]
@@ -1416,7 +1416,7 @@ class Svd(Contract):
 @register
 class Pinv(Contract):
     name, func = 'TT.pinv', 'pinv'
-    props = ('C05', 'C06', 'C17')
+    props = ('C05', 'C06', 'C17', 'C16')
 
     def instances(self):
         return [{'overwrite': False}, {'overwrite': True}]
@@ -1551,6 +1551,75 @@ class Matricize(Contract):
         if dec is None:
             raise ForkRequest(key, FA(0, d, lambda j: lst_get(me.col_dims, j) == 1))
         return npmodel_new(state, [fresh('mm')] if dec else [fresh('mm'), fresh('mn')])
+
+
+@register
+class Full(Contract):
+    """TT.full(): the dense tensor of shape (m_1, ..., m_d, n_1, ..., n_d).  Structural clauses for every order: ValueError
+    exactly for boundary ranks other than 1; every contraction and reshape of the sweep is size-consistent; the final reshape
+    takes the interleaved shape (m_1, n_1, ..., m_d, n_d) and the final transpose is a permutation that sorts the row modes
+    before the column modes; for order >= 2 the result does not share memory with the cores; self is not written."""
+    name, func = 'TT.full', 'full'
+    props = ('C01',)
+    KEY = 'i in range(1, self.order)'
+    loop_ordinals = {0: KEY}
+
+    def setup(self, ex, state, inst):
+        from vt.e1.calls import prod_instance
+        me = mk_tt(state, 'self', ex.ctx.mark0)
+        d = zi(me.order)
+        for l in (me.row_dims, me.col_dims):
+            snap = l.snapshot()
+            for (a, b) in ((0, 1), (0, d)):
+                for ax in prod_instance(snap, a, b):
+                    state.assume(ax, model=True)
+        return {'self': me}
+
+    def exceptional(self, S):
+        return {'ValueError': z3.Not(boundary_one(S.a['self']))}
+
+    def ensures(self, S, res):
+        from vt.e1.values import SArrN
+        from vt.e1.calls import prod_fun
+        me = S.o['self']
+        d = zi(me.order)
+        ok = isinstance(res, SArrN) and res.shape is not None
+        yield 'returns-array-with-known-shape', ok
+        if ok:
+            Pr, Pc = prod_fun(me.row_dims), prod_fun(me.col_dims)
+            yield 'number-of-axes', res.ndim == 2 * d
+            yield 'size', res.size == Pr(0, d) * Pc(0, d)
+            yield 'row-modes-first', FA(0, d, lambda j: zi(lst_get(res.shape, j)) == lst_get(me.row_dims, j))
+            yield 'column-modes-last', FA(0, d, lambda j: zi(lst_get(res.shape, d + j)) == lst_get(me.col_dims, j))
+            yield 'fresh-for-order>=2', z3.Implies(d >= 2, res.buf >= S.mark0)
+            yield 'real-if-all-cores-real', z3.Implies(FA(0, d, lambda j: z3.Not(lst_get(me.cores, j).cplx)), z3.Not(res.cplx))
+
+    def canary(self, S, res):
+        return res.ndim == 2 * zi(S.o['self'].order) + 1
+
+    def invariant(self, key, inst):
+        if key != self.KEY:
+            return None
+
+        def inv(V, i, k):
+            from vt.e1.calls import prod_fun
+            me = V.old('self')
+            t = V['full_tensor']
+            Pr, Pc = prod_fun(me.row_dims), prod_fun(me.col_dims)
+            ok = isinstance(t, SArr) and len(t.shape) == 2
+            yield 'matrix', ok
+            if ok:
+                yield 'shape', z3.And(t.shape[0] == Pr(0, i) * Pc(0, i), t.shape[1] == lst_get(me.ranks, i))
+                yield 'fresh-after-first-contraction', z3.Implies(i >= 2, t.buf >= V.mark0)
+                yield 'real-if-cores-so-far-real', z3.Implies(FA(0, i, lambda j: z3.Not(lst_get(me.cores, j).cplx)), z3.Not(t.cplx))
+        return inv
+
+    def effect(self, ex, state, A, inst, line):
+        from vt.e1.values import SArrN
+        me = A['self'].snapshot()
+        d = zi(me.order)
+        shp = SList(state.alloc(), 2 * d, fn=sym_elem_fn('int', state), kind='int')
+        return SArrN(fresh('fsize'), 2 * d, fresh('fcx', 'bool'), fresh('fbuf'), shp)
 
 
 def npmodel_new(state, shape):
@@ -2074,7 +2143,7 @@ class Diag(Contract):
     fresh tensor train with unchanged order, row dimensions and ranks, column dimension d for the listed modes, nothing of
     self written or shared."""
     name, func = 'TT.diag', 'diag'
-    props = ('C02', 'C06')
+    props = ('C02', 'C06', 'C20')
     KI, KK, KL = 'i in diag_list', 'k in range(r1)', 'l in range(r2)'
     loop_ordinals = {0: KI, 1: KK, 2: KL}
     list_kinds = {'cores': 'arr'}
